@@ -406,7 +406,7 @@ func Run(r *fw.Run) {
 	r.Assume = []string{"the parsers in /verif/parse are the trusted base", "dot names representative peers '<pod>_in_<namespace>' without brackets and does not repeat the IP connections in its exposure part: compared after that renaming",
 		"the exposure sections of txt/json/csv/md repeat the IP connections of every workload listed in ExposedPeers(); this is read off the tool's behaviour and asserted as part of 'exactly the exposure entries'"}
 	if r.Quick() {
-		r.SetBudget(150 * time.Second)
+		r.SetBudget(300 * time.Second)
 	} else {
 		r.SetBudget(30 * time.Minute)
 	}
